@@ -22,6 +22,12 @@ theorem nested_blocked : Gen.IBC.nestedBlocked = ["ibcclienttypes.MsgUpdateClien
 theorem ante_handled : Gen.IBC.anteHandled =
     ["ibcclienttypes.MsgSubmitMisbehaviour", "ibcclienttypes.MsgUpdateClient", "ibcchanneltypes.MsgChannelOpenAck"] := rfl
 theorem ante_top_level_only : Gen.IBC.anteHandlesNested = false := rfl
+/-- M-LC `mixedRefusal` (Model/LCTx): before it looks at any message the decorator refuses a transaction in which one of
+    its three checked message types travels with a message whose type URL does not start with `/ibc.core.` -/
+theorem ante_refuses_mixed :
+    Gen.IBC.anteRefusesMixedFirst = true ∧
+    Gen.IBC.mixedCheckedTypes = ["ibcclienttypes.MsgUpdateClient", "ibcclienttypes.MsgSubmitMisbehaviour", "ibcchanneltypes.MsgChannelOpenAck"] ∧
+    Gen.IBC.mixedAllowedPrefixes = ["/ibc.core."] := ⟨rfl, rfl, rfl⟩
 /-- M-LC `paramsCheck` compares the lengths of the candidate's lists before their elements, as
     `IsCanonicalClientParamsValid` does -/
 theorem params_compares_lengths :
